@@ -28,7 +28,10 @@ pub fn features(s: &Sentence, cfg: (u8, u8, u8, u8), words: &[&str], max_len: u8
                 }
             }
         }
-        for w in words {
+        // the dictionary is a SET of words: a word listed twice still yields one feature per occurrence
+        let mut distinct: Vec<&str> = vec![];
+        for w in words { if !distinct.contains(w) { distinct.push(*w); } }
+        for w in &distinct {
             let wc: Vec<char> = w.chars().collect();
             let wl = wc.len() as isize;
             let mut st = 0;
